@@ -695,6 +695,11 @@ def rule_R1k(res, prog):
         for (sb, sln, what) in starts:
             n += 1
             esc = cu.escapes(fn, (sb, None), stores_hs, is_target=lambda x: cu.success_ret(x) and id(x) not in err_rets)
+            if esc is not None:
+                # single-exit style (`rc = MATRIXSSL_ERROR; goto out; ... return rc`): follow the constant held by the result variable
+                esc = cu.escapes_const(fn, sb, stores_hs,
+                                       target_env=lambda x, env: x.get("k") == "ret" and cu.success_ret(x) and id(x) not in err_rets and
+                                       not cu.ret_negative_in(x, env))
             f_ = None
             if esc is not None:
                 f_ = Finding(PROP, rid, fn.name, "message parser succeeds without moving hsState",
